@@ -1,5 +1,7 @@
 import SlipVerif.Model.Reader
 import SlipVerif.Lemmas.Reader
+import SlipVerif.Lemmas.ReaderInv
+import SlipVerif.Lemmas.ReaderHalt
 /-
   C02 — reading is a function of the text, not of its delivery.
 
@@ -54,5 +56,131 @@ theorem delivery_independent (T : Tables) (cfg : Cfg)
 -- the hypothesis is satisfiable in a non-trivial way: "(ab c)" cut as ["(a","b c"] + ")" and as [] + whole
 example : ([[40, 97], [98, 32, 99]] : List (List Byte)).flatten ++ [41] = ([] : List (List Byte)).flatten ++ [40, 97, 98, 32, 99, 41] := by
   decide
+
+
+/-- **Truncation is signalled.** If the text read so far stops inside a form — inside a list /
+    vector / array / complex (depth > 0), inside a string or |symbol| or one of their escapes,
+    inside `#`-dispatch, inside a block comment, or behind a quote-like prefix whose datum is
+    missing — then reading it as a whole text is an error (incomplete or parse error), for every
+    table and configuration. It is never reported as `ok` with fewer or other objects. -/
+theorem truncation_is_signalled (T : Tables) (cfg : Cfg) (p : List Byte)
+    (hlive : (run1 T cfg init1 p).core.halt = none)
+    (hstop : StopsInsideForm (run1 T cfg init1 p)) :
+    ∃ e code, readAll T cfg p = .err e code := by
+  unfold readAll finish1
+  rw [hlive]
+  simp only []
+  have hinv : Inv (run1 T cfg init1 p).core := inv_run1 T cfg p init1 (by simpa [init1] using inv_init)
+  obtain ⟨e, he⟩ := finishCore_err T cfg _ hinv hlive hstop
+  exact ⟨e, (finishCore T cfg (run1 T cfg init1 p).core (run1 T cfg init1 p).mode (run1 T cfg init1 p).tok).code,
+    by simp [resultOf, he]⟩
+
+/-- the same, read the other way round: a text that is read as `ok` does not stop inside a form -/
+theorem ok_implies_closed (T : Tables) (cfg : Cfg) (p : List Byte) (code : List Obj) (pos : Nat)
+    (hlive : (run1 T cfg init1 p).core.halt = none)
+    (hok : readAll T cfg p = .ok code pos) : ¬ StopsInsideForm (run1 T cfg init1 p) := by
+  intro hstop
+  obtain ⟨e, c, h⟩ := truncation_is_signalled T cfg p hlive hstop
+  rw [h] at hok; cases hok
+
+/-- the depth invariant behind it: at every point of every text the open-list indexes increase and
+    each points at an opener on the stack, so depth > 0 means a non-empty stack -/
+theorem depth_invariant (T : Tables) (cfg : Cfg) (p : List Byte) :
+    Inv (run1 T cfg init1 p).core :=
+  inv_run1 T cfg p init1 (by simpa [init1] using inv_init)
+
+/-- **Step totality, lifted.** When every entry of every mode table is an action the model covers
+    in that mode (`tablesOK`, decided for the regenerated tables in Theorems/GenC02), no text can
+    drive the model out of its matrix: the `table` error is unreachable, so every disagreement
+    with the implementation is about a modelled action. -/
+theorem table_error_unreachable (T : Tables) (hT : tablesOK T = true) (cfg : Cfg) (p : List Byte)
+    (code : List Obj) : readAll T cfg p ≠ .err .table code := by
+  have hrun := haltOK_run1 T hT cfg p init1 (by simp [HaltOK, init1])
+  unfold readAll finish1
+  cases hh : (run1 T cfg init1 p).core.halt with
+  | some x =>
+    simp only [resultOf, hh]
+    cases x with
+    | err e =>
+      intro h; cases h
+      exact hrun.1 hh
+    | one q => intro h; cases h
+  | none =>
+    simp only []
+    have hg := good_finishCore T cfg (run1 T cfg init1 p).mode (run1 T cfg init1 p).tok (good_of_none hh)
+    rcases hg with h0 | ⟨e, he, h1⟩
+    · simp [resultOf, h0]
+    · simp only [resultOf, h1]
+      intro h; cases h; exact he rfl
+
+/-- **One-form position, part 1**: the position `readOne` reports lies within the text. -/
+theorem readOne_position_le (T : Tables) (hT : tablesOK T = true) (cfg : Cfg) (bs : List Byte)
+    (o : Obj) (pos : Nat) (h : readOne T cfg bs = .ok (o, pos)) : pos ≤ bs.length := by
+  have resultOf_ok : ∀ {c : Core} {n : Nat} {code : List Obj} {q : Nat},
+      resultOf c n = .ok code q → c.halt = some (.one q) ∨ (c.halt = none ∧ q = n) := by
+    intro c n code q h
+    unfold resultOf at h
+    split at h
+    · cases h
+    · rename_i hq; cases h; exact Or.inl hq
+    · rename_i hq; cases h; exact Or.inr ⟨hq, rfl⟩
+  have hrun := haltOK_run1 T hT { cfg with one := true } bs init1 (by simp [HaltOK, init1])
+  have hpos : (run1 T { cfg with one := true } init1 bs).pos = bs.length := by
+    rw [run1_pos]; simp [init1]
+  unfold readOne at h
+  split at h
+  · rename_i o' tl pos' hall
+    cases h
+    unfold readAll finish1 at hall
+    cases hh : (run1 T { cfg with one := true } init1 bs).core.halt with
+    | some x =>
+      simp only [hh] at hall
+      rcases resultOf_ok hall with h1 | ⟨h1, _⟩
+      · have := hrun.2 _ h1; omega
+      · rw [hh] at h1; cases h1
+    | none =>
+      simp only [hh] at hall
+      have hg := good_finishCore T { cfg with one := true } (run1 T { cfg with one := true } init1 bs).mode
+        (run1 T { cfg with one := true } init1 bs).tok (good_of_none hh)
+      rcases resultOf_ok hall with h1 | ⟨_, h2⟩
+      · rcases hg with h0 | ⟨e, _, h3⟩
+        · rw [h0] at h1; cases h1
+        · rw [h3] at h1; cases h1
+      · omega
+  · cases h
+  · cases h
+
+/-- **One-form position, part 2**: once the first form is complete (or an error is met) nothing
+    that follows in the text can change the form or the position reported: the result is a function
+    of the bytes up to and including the byte that completed the form. -/
+theorem readOne_ignores_rest (T : Tables) (cfg : Cfg) (p q₁ q₂ : List Byte)
+    (hhalt : (run1 T cfg init1 p).core.halt ≠ none) :
+    readAll T cfg (p ++ q₁) = readAll T cfg (p ++ q₂) := by
+  have key : ∀ (q : List Byte) (s : S1), s.core.halt ≠ none →
+      (run1 T cfg s q).core = s.core := by
+    intro q
+    induction q with
+    | nil => intro s _; simp [run1]
+    | cons b rest ih =>
+      intro s hs
+      have h1 : (step1 T cfg s b).core = s.core := by
+        unfold step1
+        cases hh : s.core.halt with
+        | none => exact absurd hh hs
+        | some x => rfl
+      have := ih (step1 T cfg s b) (by rw [h1]; exact hs)
+      simpa [run1, h1] using this
+  unfold readAll finish1
+  rw [run1_append, run1_append, key q₁ _ hhalt, key q₂ _ hhalt]
+  cases hh : (run1 T cfg init1 p).core.halt with
+  | none => exact absurd hh hhalt
+  | some x => cases x <;> simp [resultOf, hh]
+
+/- `readOne_position` in full — "reading `text.drop pos` from the initial state yields exactly the
+   remaining forms of `readAll text`" — is NOT proved here (it needs an equivalence of the state
+   reached after the first form with the initial state up to the fields a fresh read overwrites:
+   `base`, `sharpNum`, `rn`, `rcnt`, `nextMode`, `line`). The correspondence harness checks it on
+   every generated text instead (entries `ReadOne(form-by-form)` and `read-from-string(form-by-form)`).
+   Proved parts: `readOne_position_le`, `readOne_ignores_rest`. -/
 
 end SlipVerif.Theorems.C02
